@@ -190,6 +190,12 @@ func runC06(e *Engine, g G, o RunOpt) RunInfo {
 		kind  string
 		id    string
 	}
+	otherType := func(p c06Pkt) string {
+		if strings.HasPrefix(p.Raw, "<a ") {
+			return "stanza.SMAnswer"
+		}
+		return "stanza.StreamFeatures"
+	}
 	var hits []hit
 	established := false
 	var conn *SrvConn
@@ -280,10 +286,21 @@ func runC06(e *Engine, g G, o RunOpt) RunInfo {
 		e.Violate("C06", "unexpected-reply", "the router wrote %v although no handler sends anything", otherWrites)
 	}
 	expectReplies := 0
+	wantOther := map[string]int{}
+	gotOther := map[string]int{}
+	for _, h := range hits {
+		if h.kind != "message" && h.kind != "presence" && h.kind != "iq" {
+			gotOther[fmt.Sprintf("%s->route#%d", h.kind, h.route)]++
+		}
+	}
 	for _, p := range sc.Packets {
 		want := refRoute(sc.Routes, p)
 		if p.Kind == "other" {
-			continue // non-stanza packets carry no id to attribute; covered by the reply check
+			// no id to attribute: compared as a multiset below
+			if want >= 0 {
+				wantOther[fmt.Sprintf("%s->route#%d", otherType(p), want)]++
+			}
+			continue
 		}
 		got := perPkt[p.Kind+"/"+p.ID]
 		switch {
@@ -313,6 +330,21 @@ func runC06(e *Engine, g G, o RunOpt) RunInfo {
 		} else if len(rs) > 0 {
 			e.Violate("C06", "reply-without-need", "packet %s (route %d) was answered with %d error replies", p.Raw, want, len(rs))
 		}
+	}
+	for k, n := range wantOther {
+		if gotOther[k] != n {
+			e.Violate("C06", "non-stanza-packet-routing", "non-stanza packets: expected %v, handlers ran %v", wantOther, gotOther)
+			break
+		}
+	}
+	for k, n := range gotOther {
+		if wantOther[k] != n {
+			e.Violate("C06", "non-stanza-packet-routing", "non-stanza packets: expected %v, handlers ran %v", wantOther, gotOther)
+			break
+		}
+	}
+	if len(wantOther) > 0 {
+		e.Probe("c06.non_stanza_routed")
 	}
 	if expectReplies > 0 {
 		e.Probe("c06.auto_reply_expected")
